@@ -8,6 +8,7 @@ func init() {
 		gfSpec{Pkg: "./pkg/vm/stackitem", Func: "CheckIntegerSize", Lean: "vmCheckIntegerSize"},
 		gfSpec{Pkg: "./pkg/vm", Func: "toInt", Lean: "vmToInt"},
 		gfSpec{Pkg: "./pkg/smartcontract/scparser", Recv: "Context", Func: "Jump", Lean: "vmContextJump"},
+		gfSpec{Pkg: "./pkg/smartcontract/scparser", Recv: "Context", Func: "CalcJumpOffset", Lean: "vmCalcJumpOffset"},
 		gfSpec{Pkg: "./pkg/vm", Func: "getJumpCondition", Lean: "vmGetJumpCondition"},
 		gfSpec{Pkg: "./pkg/vm/stackitem", Recv: "Type", Func: "IsValid", Lean: "vmTypeIsValid"},
 	)
